@@ -7,10 +7,14 @@ props = [c["property_id"] for c in man["checks"]]
 if subprocess.run(["git", "-C", "/repo", "diff", "--quiet"]).returncode != 0:
     sys.exit("/repo has uncommitted changes")
 rows = []
+ONLY = set(sys.argv[1:])  # optional: ids to (re)run ("NEW" = those without a recorded verdict); the table is rewritten from all meta files
 for d in sorted((V / "seeded").iterdir()):
     if not (d / "patch.diff").exists():
         continue
     meta = json.loads((d / "meta.json").read_text()) if (d / "meta.json").exists() else {}
+    if ONLY and d.name not in ONLY and not ("NEW" in ONLY and not meta.get("caught_by") and not meta.get("no_verdict")):
+        rows.append((d.name, meta.get("property", "?"), ", ".join(c["check"] for c in meta.get("caught_by", [])) or "MISSED", meta.get("no_verdict", [])))
+        continue
     ap = subprocess.run(["git", "-C", "/repo", "apply", str(d / "patch.diff")], capture_output=True, text=True)
     if ap.returncode != 0:
         rows.append((d.name, meta.get("property", "?"), "PATCH DOES NOT APPLY", []))
